@@ -9,6 +9,16 @@ LEVEL_NOTE = ("Bounded symbolic model checking: every harness is CONFIRMED only 
               "and the environment stubs listed in the evidence.")
 
 CLAIMS = {
+    "C01": dict(
+        text="One-step lemma on the real VM._check_limits from an arbitrary counter/clock/stack state (all integers, "
+             "all doubles): it polls exactly every 1000th step and a poll past the deadline always raises "
+             "TimeLimitError; plus, for every place script code can run (48 placements x bare/try/try-in-function), "
+             "the real interpreter is run under a symbolic clock (arbitrary non-decreasing readings, arbitrary T): the "
+             "evaluation must end with TimeLimitError exactly at the first reading past the deadline, no script "
+             "handler may run after it, no opcode may run without a preceding limit check, nested eval/Function and "
+             "every regex entry point must use the outer deadline. Time is a solver variable, not a sleep.",
+        technique="symbolic clock + symbolic execution of the real interpreter loop (CrossHair/z3), one-step lemma",
+        design_ref="DESIGN.md section 4 (C01)"),
     "C06": dict(
         text="Each real opcode handler (and the compiled compound/update/logical forms through eval) is executed "
              "symbolically against a transcription of the ECMAScript abstract operations: all IEEE doubles and all "
